@@ -503,12 +503,22 @@ func (ex *Exec) builtin(f *frame, st *State, instr ssa.Instruction, b *ssa.Built
 			ex.set(st, comp, store(arr, r, content))
 			set(app(SSlice, "mkSlice", r, app(SInt, "soff", a), app(SInt, "+", app(SInt, "slen", a), intLit(int64(n)))))
 		} else {
-			// unknown tail: contents havocked, length known
 			var blen Term
 			if args[1].Sort == SStr {
+				// bytes of a string appended: the tail's contents are left unknown, the length is known
 				blen = app(SInt, "str.len", args[1])
 			} else {
-				blen = app(SInt, "slen", args[1])
+				// exact: the new backing array holds a's elements followed by b's (a lambda row over the old rows)
+				b := args[1]
+				blen = app(SInt, "slen", b)
+				oldA := sel(arr, app(SInt, "sarr", a))
+				oldB := sel(arr, app(SInt, "sarr", b))
+				j := Term{"apj", SInt}
+				body := ite(app(SBool, "<", j, app(SInt, "slen", a)),
+					sel(oldA, app(SInt, "+", app(SInt, "soff", a), j)),
+					sel(oldB, app(SInt, "+", app(SInt, "soff", b), app(SInt, "-", j, app(SInt, "slen", a)))))
+				row := Term{"(lambda ((apj Int)) " + body.S + ")", arraySort(SInt, es)}
+				ex.set(st, comp, store(arr, r, row))
 			}
 			set(app(SSlice, "mkSlice", r, intLit(0), app(SInt, "+", app(SInt, "slen", a), blen)))
 		}
